@@ -25,6 +25,9 @@ ParSide(c, reg) == IF SideOf(reg) = "l" THEN [gm1 |-> c.par.gm1l, gamma |-> c.pa
 EosClauses(c, e) ==
   LET row == RowOf(c) t == TolOf(c).sl IN
   CASE e.reg = "vacuum"     -> {}            \* documented vacuum: rho = p = 0, the specific energy is undefined
+    [] row.eos = "cjisentrope" ->            \* products of a CJ detonation: c^2 = gamma p / rho on the isentrope p/p_cj = (rho/rho_cj)^gamma
+            Chk("EOS.c2=g.p/rho", Same(Sq(e.v.c), Div(Mul(c.par.gamma, e.v.p), e.v.rho), 2 * t))
+       \cup Chk("EOS.cj-isentrope", Same(Div(e.v.p, c.par.pcj), PowQ(Div(e.v.rho, c.par.rhocj), c.par.gammaQ), 4 * t))
     [] row.eos = "gamma"    -> EosGamma(c.par, e.v, t)
     [] row.eos = "gamma2"   -> EosGamma(ParSide(c, e.reg), e.v, t)
     [] row.eos = "cog"      -> EosCog(c.par, e.v, t)
@@ -57,10 +60,16 @@ PtClauses(c, e) ==
 (* a contact carries equal pressure and normal velocity and moves with the fluid *)
 JumpClauses(c, j) ==
   LET g == Groups(c) t == TolOf(c).jump IN
+  IF j.kind \in {"piston", "interface"} THEN {}
+  ELSE IF j.kind = "cont"
+  THEN \* a region boundary that the documentation describes as a characteristic: every field continuous
+       (IF "RH" \in g THEN UNION { Chk("RH.unreported-jump." \o n, Balanced(j.bal[n], 100 * t)) : n \in DOMAIN j.bal } ELSE {})
+  ELSE
        (IF "RH" \in g
         THEN  Chk("RH.mass", Balanced(j.bal.mass, t))
          \cup Chk("RH.mom",  Balanced(j.bal.mom, t))
          \cup Chk("RH.ener", Balanced(j.bal.ener, t))
+         \cup (IF j.kind = "detonation" THEN Chk("RH.cj-sonic", Balanced(j.cj, t)) ELSE {})
          \cup (IF j.kind = "contact"
                THEN  Chk("RH.contact.p", Balanced(j.cont.p, t))
                 \cup Chk("RH.contact.u", Balanced(j.cont.u, t))
@@ -74,6 +83,8 @@ Dir(a, b) == IF SLLt(a, b) THEN 1 ELSE IF SLLt(b, a) THEN -1 ELSE 0
 StepClauses(c, p, e) ==
   IF "ADM" \in Groups(c) /\ p # NoPt /\ p.reg = e.reg /\ e.reg \in DOMAIN FanDir /\ p.fin /\ e.fin
   THEN UNION { Chk("ADM.fan-monotone." \o f, Dir(p.v[f], e.v[f]) = FanDir[e.reg][f]) : f \in {"p", "rho", "u"} }
+  ELSE IF "ADM" \in Groups(c) /\ p # NoPt /\ p.reg = e.reg /\ e.reg \in DOMAIN WeakDir /\ p.fin /\ e.fin
+  THEN UNION { Chk("ADM.monotone." \o f, Dir(p.v[f], e.v[f]) \in {0, WeakDir[e.reg][f]}) : f \in DOMAIN WeakDir[e.reg] }
   ELSE {}
 
 (* integral balances (C04, C11) and bounds (C17: values between the constant states) *)
